@@ -449,3 +449,40 @@ Proof.
   replace (Nat.leb (len ch + 3) (len ch)) with false in Hc by (symmetry; apply Nat.leb_gt; lia).
   replace (len ch + 3 - len ch) with 3 in Hc by lia. cbn in Hc. inversion Hc as [[H1 H2]]. exact H1.
 Qed.
+
+(* ================================================================ the pre-pass: refusals before any write *)
+Lemma inplace_ops_refused prepipe flag plan :
+  (exists e, In e plan /\ updatable prepipe flag (e_file e) = false) -> inplace_ops prepipe flag plan = [].
+Proof.
+  intros (e & Hin & Hu). unfold inplace_ops.
+  destruct (forallb (fun e => updatable prepipe flag (e_file e)) plan) eqn:E; [|reflexivity].
+  rewrite forallb_forall in E. specialize (E e Hin). cbn in E. congruence.
+Qed.
+
+Lemma refusals_before_any_write prepipe flag plan :
+  (exists e, In e plan /\ updatable prepipe flag (e_file e) = false) ->
+  forall st k p, exec (firstn k (inplace_ops prepipe flag plan)) st p = st p.
+Proof. intros H st k p. rewrite (inplace_ops_refused _ _ _ H). now rewrite firstn_nil. Qed.
+
+Lemma inplace_ops_accepted prepipe flag plan :
+  (forall e, In e plan -> updatable prepipe flag (e_file e) = true) -> inplace_ops prepipe flag plan = all_ops plan.
+Proof.
+  intros H. unfold inplace_ops. replace (forallb (fun e => updatable prepipe flag (e_file e)) plan) with true; [reflexivity|].
+  symmetry. apply forallb_forall. exact H.
+Qed.
+
+Lemma updatable_spec prepipe flag f :
+  updatable prepipe flag f = true <->
+  is_url f = false /\ prepipe = false /\ input_encoding flag f <> EncBzip2.
+Proof.
+  unfold updatable. rewrite !andb_true_iff, !negb_true_iff. split.
+  - intros [[H1 H2] H3]. repeat split; auto. intros E. rewrite E in H3. discriminate.
+  - intros (H1 & H2 & H3). repeat split; auto. destruct (input_encoding flag f); auto. congruence.
+Qed.
+
+(* gzip, zlib and zstd inputs (by flag) are accepted whatever the name's suffix; bzip2 (by flag) never *)
+Lemma compressions_accepted f :
+  is_url f = false ->
+  updatable false EncGzip f = true /\ updatable false EncZlib f = true /\ updatable false EncZstd f = true /\
+  updatable false EncBzip2 f = false.
+Proof. intros H. unfold updatable. rewrite H. cbn. auto. Qed.
